@@ -143,3 +143,32 @@ conv_prop("C16", ["trip"], "trip(C16): all bodies over the tokens {'.', LF, CRLF
 PROPS["C16"]["trusted_base"] = TRIP_TB
 conv_prop("C18", ["trip"], "trip(C18): 1..3 consecutive LMTP transactions x 1..3 recipients (some refused at RCPT) x per-recipient verdict vectors (all 64 masks; every 4th in quick) x {LMTPData with callback, without}. Oracle: the callback fires once per recipient accepted in that transaction, in order, with that recipient's status; Close returns nil (callback) or the first refusal (no callback); the following NOOP is in step.")
 PROPS["C18"]["trusted_base"] = TRIP_TB
+
+CLI_TB = ["model Client.v of client.go (every exported method, lazy hello with HELO fallback, ext parsing, validateLine, extension gates, dataCloser.Close incl. the LMTP reply loop, Auth with the SASL mechanism as a script, startTLS up to the handshake) together with net/textproto's Conn.Cmd / Writer.PrintfLine / DotWriter / closeDot over a 4096-octet bufio.Writer and Reader.ReadResponse (ClientReply.v); tied by the cli runs of this check (real client against ScriptConn, a pre-scripted fake server)",
+          "the observed-behaviour oracles of CheckCli.v and the expectations stated by the generators in harness/gencli.go ((adv ..), (verd ..), (want ..), (exp ..))",
+          "out of the model's scope: reply lines above 2000 octets (client-side lineLimitReader), deadlines, the TLS handshake itself (after a 220 the scripted handshake fails; what is compared is everything written before the first TLS record and the error kind), a '%' in the SASL mechanism name (Auth passes it to fmt as a format)"]
+
+CLI_RULE = ("cli: the real client driven through its API against a scripted stream. c15: all 2^7 subsets of advertised extensions x option-field subsets of MailOptions/RcptOptions (thorough: the full 128 x 129 product); hostile: all strings up to length 3 (thorough 4) over {CR,LF,NUL,SP,<,>,a} in Hello name, Verify addr, Mail from, Rcpt to, EnvelopeID, Auth, OriginalRecipient (both types), Extension name, plus hostile Return / Notify / address-type values; txn: every single transaction with 1..3 recipients x accept/refuse masks x verdict vectors x {callback, none} x {Close once, twice} x {LMTP, SMTP}, and random sequences of 2..3 transactions with Reset / Noop in between; starttls: {not advertised (3 ways), 454, 250, garbage reply, EOF, 220+garbage, 220+injected replies in the same / a later segment, 220+EOF, failing greeting / hello} x 5 follow-up call sequences; auth: 0..3-step scripted mechanisms x initial response {nil, empty, text, binary, all 256 octets} x server replies {334, empty 334, bad base64, two-line 334, 235, 535, garbage}; hello: 7 greetings x 11 EHLO/HELO outcomes x 6 call sequences; sendmail: bodies (incl. > 4096 octets) x outcomes, data-writer misuse; random: random call sequences over random reply streams. A case is distinct if its generated line is.")
+
+PROPS["C15"] = {
+    "kinds": ["cli"],
+    "rule": CLI_RULE + " Oracle C15: every conn.Write of a command method is one line without CR/LF inside, lines = hello lines + at most the method's own line with the argument verbatim, CR/LF in an argument => local error and nothing written, every parameter after the address is a keyword whose key the scripted EHLO reply advertised, RequireTLS/UTF8 without the key => local error and no MAIL line.",
+    "trusted_base": CLI_TB,
+    "assumptions": ["C15_one_line assumes the state invariant 'quiet' (no data writer open, nothing pending in textproto's write buffer), re-established by every command method (C15_invariant) and by Close (dw_close_quiet); a command issued while the data writer is open makes textproto write the terminator first, and a Write after Close leaves octets pending that travel with the next command (API misuse, modelled and exercised by focus writer-misuse, outside the property)",
+                    "Auth: the mechanism NAME must be free of CR/LF (supplied by the sasl.Client, not validated by Auth)"],
+}
+PROPS["C18"] = {
+    "kinds": ["cli"],
+    "rule": CLI_RULE + " Oracle C18: in LMTP the callbacks of a Close are exactly (recipient, scripted reply) for the recipients whose RCPT returned nil since the last MAIL, in order; without callback Close returns the first negative reply; the commands after the transaction get their own replies.",
+    "trusted_base": CLI_TB,
+    "assumptions": ["C18_callbacks assumes well-formed replies from the server: a non-error reply to MAIL and DATA, one reply per RCPT, and after the final dot exactly one reply per recipient accepted in that transaction (txn_stream); satisfied by the go-smtp server's emission (C18_stream_hypothesis_satisfiable)"],
+}
+
+PROPS["C09"]["kinds"] = ["tls", "conv", "c03", "c08", "cli"]
+PROPS["C10"]["kinds"] = ["tls", "conv", "cli"]
+PROPS["C16"]["kinds"] = ["trip", "cli"]
+PROPS["C18"]["kinds"] = ["cli", "trip"]
+PROPS["C15"]["kinds"] = ["cli"]
+for _p in ("C09", "C10", "C16", "C18"):
+    PROPS[_p]["trusted_base"] = PROPS[_p].get("trusted_base", []) + CLI_TB
+    PROPS[_p]["rule"] = PROPS[_p]["rule"] + " cli: " + CLI_RULE
